@@ -560,8 +560,7 @@ def bank_words(regions):
 R_CSR8 = "C14-csr8-stride"
 R_LITTLE = "C14-little-ordering-accessors"
 R_AXIL_RD = "C14-axil-wide-bus-read-side-effects"
-R_AXI_NARROW = "C14-axi-wide-bus-narrow-access-next-word"
-KNOWN_REGIONS = (R_CSR8, R_LITTLE, R_AXIL_RD, R_AXI_NARROW)
+KNOWN_REGIONS = (R_CSR8, R_LITTLE, R_AXIL_RD)
 
 
 def config_regions(cfg, regions=None):
@@ -573,8 +572,6 @@ def config_regions(cfg, regions=None):
         out.add(R_LITTLE)
     if cfg["bus"] in ("axi-lite", "axi") and cfg["bus_dw"] > 32:
         out.add(R_AXIL_RD)
-    if cfg["bus"] == "axi" and cfg["bus_dw"] > 32:
-        out.add(R_AXI_NARROW)
     return out
 
 
@@ -707,8 +704,9 @@ def check_soc(cfg, seed=0, max_regs=None):
     # ---- end-to-end: access every exported address ----------------------------------------------------------
     tb = Tb(b)
     wide_axi = cfg["bus"] in ("axi-lite", "axi") and cfg["bus_dw"] > 32
-    model_hits = not wide_axi       # the AXI-Lite 64->32 converter's double reads are not part of the model
-    model_regs = model_hits and bw == 32
+    model_hits = True
+    model_regs = bw == 32
+    ratio = cfg["bus_dw"] // 32 if wide_axi else 1   # AXI-Lite wide->32 converter: a load reads every 32-bit part
     simple_key = {}     # id(simple CSR) -> "bank:index"
     for name, i, c in tb.simple:
         simple_key[id(c)] = "%s:%d" % (name, i)
@@ -751,7 +749,7 @@ def check_soc(cfg, seed=0, max_regs=None):
                     cur = (cur & ~(((1 << nb) - 1) << lo)) | ((v & ((1 << nb) - 1)) << lo)
                     backshadow[id(r.obj)] = cur
         if model_hits and csr_base <= addr < csr_base + (1 << (aw + 2)):
-            rec["lean"].append(("decode %d %d %d %d ; %s" % (bw, aw, paging, addr - csr_base, banks),
+            rec["lean"].append(("decode %d %d %d %d %d ; %s" % (bw, aw, paging, 1 if we else ratio, addr - csr_base, banks),
                                 hits_model_form(hits)))
         return val, hits
 
@@ -762,11 +760,36 @@ def check_soc(cfg, seed=0, max_regs=None):
         want = {"%s:%s" % (kind, simple_key[id(sc)])}
         got = set(tb.name_hits(hits))
         if got != want:
-            tags = [R_CSR8, R_AXI_NARROW]
+            tags = [R_CSR8]
             if kind == "r" and got > want and all(g.startswith("r:") for g in got):
                 tags.append(R_AXIL_RD)
             alarm("%s: strobed %s, expected exactly %s" % (what, sorted(got), sorted(want)), *tags)
         return True
+
+    # ---- the accessor recipes on their own (no hardware): the words stored / loaded at the successive addresses
+    #      must be the words of the value in the order the hardware was configured with ------------------------
+    wmask = (1 << bw) - 1
+    for R in regions:
+        for r in R.regs:
+            nw = len(r.simple)
+            order = [nw - 1 - k for k in range(nw)] if big else list(range(nw))     # word index at address position k
+            ltag = (R_LITTLE,) if nw > 1 else ()
+            if r.full in ex.header.writers:
+                v = rng.getrandbits(nw * bw)
+                stores = []
+                ex.header.write(r.full, v, lambda a, x: stores.append(x))
+                want = [(v >> (bw * i)) & wmask for i in order]
+                if [x & wmask for x in stores] != want:
+                    alarm("%s_write(0x%x) stores %s, the register's words in address order are %s" % (
+                        r.full, v, [hex(x & wmask) for x in stores], [hex(x) for x in want]), *ltag)
+                count("recipes")
+            if r.full in ex.header.readers:
+                v = rng.getrandbits(nw * bw)
+                feed = [(v >> (bw * i)) & wmask for i in order]
+                got = ex.header.read(r.full, lambda a, it=iter(feed): next(it))
+                if got != v:
+                    alarm("%s_read() composes 0x%x from the words of 0x%x" % (r.full, got, v), *ltag)
+                count("recipes")
 
     reglist = [(R, r) for R in regions for r in R.regs]
     if max_regs is not None and len(reglist) > max_regs:
@@ -807,11 +830,11 @@ def check_soc(cfg, seed=0, max_regs=None):
             got = after[id(r.obj)]
             if got != want_val:
                 alarm("%s_write(0x%x): storage holds 0x%x, expected 0x%x" % (r.full, v, got, want_val),
-                      R_CSR8, R_AXI_NARROW, *ltag)
+                      R_CSR8, *ltag)
             for o, s in storages:
                 if o is not r and after[id(o.obj)] != before[id(o.obj)]:
                     alarm("%s_write changed %s (0x%x -> 0x%x)" % (r.full, o.full, before[id(o.obj)], after[id(o.obj)]),
-                          R_CSR8, R_AXI_NARROW)
+                          R_CSR8)
             if ok_access and model_regs:
                 rec["lean"].append(("hwwrite %d %d %d %d %d %d 0 %s" % (big, r.atomic, bw, r.size, old, back,
                                                                         " ".join(str(x) for _, x in stores)), str(got)))
@@ -846,8 +869,7 @@ def check_soc(cfg, seed=0, max_regs=None):
         if model_regs:
             rec["lean"].append(("hwwords %d %d %d %d" % (big, bw, r.size, cur), " ".join(map(str, loads))))
         if got != cur:
-            alarm("%s_read() = 0x%x, register holds 0x%x" % (r.full, got, cur), R_CSR8, R_AXI_NARROW,
-                  *(ltag + ((R_AXIL_RD,) if cfg["bus"] == "axi" else ())))
+            alarm("%s_read() = 0x%x, register holds 0x%x" % (r.full, got, cur), R_CSR8, *ltag)
         count("reads")
         count("nontrivial", 1 if nw > 1 or r.kind == "storage" else 0)
 
@@ -868,19 +890,19 @@ def check_soc(cfg, seed=0, max_regs=None):
                 continue
             got = set(tb.name_hits(hits))
             if got != {"mw:" + R.name}:
-                alarm("%s: strobed %s" % (what, sorted(got)), R_CSR8, R_AXI_NARROW)
+                alarm("%s: strobed %s" % (what, sorted(got)), R_CSR8)
             after = [tb.mem_word(mem, k) for k in range(depth)]
             want = list(before)
             want[i] = v & ((1 << mem.width) - 1)
             if after != want:
-                alarm("%s: memory content differs from 'word %d := 0x%x only'" % (what, i, want[i]), R_CSR8, R_AXI_NARROW)
+                alarm("%s: memory content differs from 'word %d := 0x%x only'" % (what, i, want[i]), R_CSR8)
             val, hits = do_access(base + 4 * i, 0)
             if hits is None:
                 alarm("load from memory %s: the bus hangs" % R.name)
             elif val != after[i] or set(tb.name_hits(hits)) != {"mr:" + R.name}:
                 alarm("load from memory %s word %d returns 0x%x (holds 0x%x), strobes %s" % (
-                    R.name, i, val or 0, after[i], tb.name_hits(hits)), R_CSR8, R_AXI_NARROW,
-                    *((R_AXIL_RD,) if cfg["bus"] == "axi" or (set(tb.name_hits(hits)) > {"mr:" + R.name} and val == after[i]) else ()))
+                    R.name, i, val or 0, after[i], tb.name_hits(hits)), R_CSR8,
+                    *((R_AXIL_RD,) if (set(tb.name_hits(hits)) > {"mr:" + R.name} and val == after[i]) else ()))
             if model_regs:
                 rec["lean"].append(("memsel %d %d %d %d" % (paging, R.page, depth, (base + 4 * i - csr_base) // 4), str(i)))
             count("mem_accesses", 2)
@@ -905,7 +927,7 @@ def check_soc(cfg, seed=0, max_regs=None):
         if hits is None:
             alarm("access to unexported address 0x%x: the bus hangs" % a)
         elif tb.name_hits(hits):
-            alarm("unexported address 0x%x strobes %s" % (a, tb.name_hits(hits)), R_CSR8, R_AXI_NARROW,
+            alarm("unexported address 0x%x strobes %s" % (a, tb.name_hits(hits)), R_CSR8,
                   *(() if we else (R_AXIL_RD,)))
         count("unexported_probed")
 
